@@ -1,6 +1,7 @@
 import json
 from mindsdb_sql.parser.ast.base import ASTNode
 from mindsdb_sql.parser.utils import indent
+from mindsdb_sql.parser.ast.select.constant import Constant
 
 
 class CreateDatabase(ASTNode):
@@ -44,8 +45,9 @@ class CreateDatabase(ASTNode):
             replace_str = f' OR REPLACE'
 
         engine_str = ''
-        if self.engine:
-            engine_str = f'ENGINE = {repr(self.engine)} '
+        if self.engine is not None:
+            # an SQL string literal, not a Python one (repr() doubles back-slashes and picks its own quote character)
+            engine_str = f'ENGINE = {Constant(self.engine).to_string() if isinstance(self.engine, str) else repr(self.engine)} '
 
         parameters_str = ''
         if self.parameters is not None:
